@@ -240,9 +240,18 @@ def check_solve(case, ctx):
     n = case['size']
     na = max(1, min(n, case['nactive'])) if case['nulls'] else n
     active = np.sort(rs.permutation(n)[:na])
-    Q, _ = np.linalg.qr(rs.normal(size=(na, na)))
-    ev = np.exp(rs.uniform(0., np.log(case['cond']), na))
-    Ka = (Q * ev).dot(Q.T)
+    if case.get('structure') == 'chain':
+        # chain of integer springs grounded at one end: interior columns sum to exactly zero (k_i + k_{i+1} - k_i - k_{i+1})
+        ks = rs.randint(1, 5, size=na + 1).astype(float)
+        Ka = np.zeros((na, na))
+        for i in range(na):
+            Ka[i, i] = ks[i] + (ks[i + 1] if i + 1 < na else 0.)
+            if i + 1 < na:
+                Ka[i, i + 1] = Ka[i + 1, i] = -ks[i + 1]
+    else:
+        Q, _ = np.linalg.qr(rs.normal(size=(na, na)))
+        ev = np.exp(rs.uniform(0., np.log(case['cond']), na))
+        Ka = (Q * ev).dot(Q.T)
     K = np.zeros((n, n))
     K[np.ix_(active, active)] = (Ka + Ka.T) / 2.
     f1 = rs.normal(size=n)
@@ -250,7 +259,7 @@ def check_solve(case, ctx):
     Ks = csr_matrix(K)
     name = 'static'
     ctx.nontrivial = bool(case['nulls'])
-    ctx.label('nulls' if case['nulls'] else 'full', 'size:%s' % ('<=20' if n <= 20 else '>20'))
+    ctx.label('nulls' if case['nulls'] else 'full', 'size:%s' % ('<=20' if n <= 20 else '>20'), 'structure:%s' % case.get('structure', 'random'))
     inactive = np.setdiff1d(np.arange(n), active)
 
     def run(f):
@@ -384,7 +393,8 @@ def _bay_strategy(draw, tier='quick'):
 def _solve_strategy(draw, tier='quick'):
     size = draw(st.integers(2, 60 if tier == 'quick' else 300))
     return {'seed': draw(st.integers(0, 2 ** 31 - 1)), 'size': size, 'nulls': draw(st.booleans()),
-            'nactive': draw(st.integers(1, size)), 'cond': draw(st.sampled_from([10., 1e3, 1e5])), 's': draw(gen.fl(-3., 3.))}
+            'nactive': draw(st.integers(1, size)), 'cond': draw(st.sampled_from([10., 1e3, 1e5])), 's': draw(gen.fl(-3., 3.)),
+            'structure': draw(st.sampled_from(['random', 'random', 'chain']))}
 
 
 @st.composite
